@@ -87,7 +87,7 @@ def optRat (o : Option Rat) : String := match o with | some q => showRat q | non
 
 def showLoaded (s : Loaded) : String :=
   let props := s.props.map fun p =>
-    p.name ++ " " ++ showBool p.isInt ++ " " ++ toString p.shape.length ++
+    p.name ++ " " ++ (if p.isBool then "2" else showBool p.isInt) ++ " " ++ toString p.shape.length ++
       (if p.shape = [] then "" else " " ++ " ".intercalate (p.shape.map toString)) ++ " " ++ toString p.vals.length ++
       " " ++ toString (p.vals.headD []).length ++
       (if p.vals.flatten = [] then "" else " " ++ showRats p.vals.flatten)
